@@ -19,7 +19,7 @@ namespace rec = xenium::reclamation;
 
 namespace {
 
-constexpr int MAXK = 8;
+constexpr int MAXK = 16;
 constexpr int MAXT = 4;
 constexpr int MAXOPS = 6;
 constexpr int MAXID = 200;
@@ -232,7 +232,7 @@ struct VHarness {
   Map* m = nullptr;
   int U = 5, cap = 1, pattern = 0;
   int keyval[MAXK];
-  POp prefix[24];
+  POp prefix[44];
   int nprefix = 0;
   POp progs[MAXT][MAXOPS];
   int nthreads = 2;
@@ -451,7 +451,7 @@ struct VHarness {
     static const int caps[5] = {1, 2, 4, 128, 256};
     cap = caps[vrt::choose(5)];
     U = 4 + (int)vrt::choose(5);
-    pattern = (int)vrt::choose(3);
+    pattern = (int)vrt::choose(4); // value 3 was added later: older replay files only contain 0..2 and decode unchanged
     int base = (int)vrt::choose(3);
     for (int i = 0; i < U; ++i) {
       // 0: all keys share one bucket whatever the capacity; 1: two groups; 2: mostly distinct buckets
@@ -462,12 +462,20 @@ struct VHarness {
       else
         keyval[i] = base + 1 + i + (i >= 5 ? 4096 : 0);
     }
+    if (pattern == 3) {
+      // up to 16 keys that collide in one of 128 buckets but split when the map grows to 256 buckets: three array
+      // items + all ten extension items of the extension bucket, the next insert grows the map while extension
+      // items are in use (no additional draws: older replay files stay valid)
+      cap = 128;
+      U = 12 + (U - 4);
+      for (int i = 0; i < U; ++i) keyval[i] = base + 1 + i * 128;
+    }
     nthreads = seq ? 0 : 1 + (int)vrt::choose(3);
     with_iter = c11 ? true : (vrt::choose(4) == 0);
     stable_from = with_iter && !seq ? U - 1 - (int)vrt::choose(2) : U;
     iter_from_find = vrt::choose(3) == 0;
     iter_key = (uint8_t)vrt::choose((uint32_t)U);
-    int np = seq ? 6 + (int)vrt::choose(18) : (int)vrt::choose(15);
+    int np = seq ? 6 + (int)vrt::choose(pattern == 3 ? 38 : 18) : (int)vrt::choose(pattern == 3 ? 30 : 15);
     nprefix = np;
     static const uint32_t wp[O_NK] = {0, 12, 3, 2, 2, 1, 0, 0, 0};
     for (int i = 0; i < np; ++i) {
@@ -561,23 +569,6 @@ struct VHarness {
       vrt::label("complete_traversal");
     }
 
-    // every bucket lock must be free again: one emplace+erase per key (a locked bucket makes this hang)
-    for (int k = 0; k < U; ++k) {
-      VOp dummy;
-      (void)dummy;
-      K key = KT<K>::make(keyval[k]);
-      vrt::op_begin(0);
-      Acc acc;
-      bool present = m->try_get_value(key, acc);
-      vrt::op_end();
-      if (!present) {
-        exec(POp{O_INSERT, 0, (uint8_t)k}, hist[MAXT + 1]);
-        exec(POp{O_ERASE, 0, (uint8_t)k}, hist[MAXT + 1]);
-      } else {
-        exec(POp{O_TRYGET, 0, (uint8_t)k}, hist[MAXT + 1]);
-      }
-    }
-
     // final full iteration at quiescence
     VOp scan;
     scan.tid = vrt::self();
@@ -599,6 +590,28 @@ struct VHarness {
       scan.scan_n = (uint8_t)n;
     }
     vrt::stamp(&scan.resp);
+
+    // every bucket lock must be free again: one emplace+erase (or a lookup) per key; a locked bucket makes this hang.
+    // Executed after the final iteration and checked directly against it (not part of the 64-operation history).
+    for (int k = 0; k < U; ++k) {
+      K key = KT<K>::make(keyval[k]);
+      bool in_scan = false;
+      for (int i = 0; i < scan.scan_n; ++i) in_scan |= scan.scan_key[i] == k;
+      vrt::op_begin(0);
+      bool present;
+      {
+        Acc acc;
+        present = m->try_get_value(key, acc);
+      }
+      vrt::op_end();
+      if (present != in_scan) vrt::fail("probe_mismatch", "try_get_value(%d) says %s but the final iteration %s the key", keyval[k], present ? "present" : "absent", in_scan ? "yielded" : "did not yield");
+      if (!present) {
+        vh::hvec<VOp> scratch;
+        exec(POp{O_INSERT, 0, (uint8_t)k}, scratch);
+        exec(POp{O_ERASE, 0, (uint8_t)k}, scratch);
+        if (scratch.size() != 2 || !scratch[0].ok || !scratch[1].ok) vrt::fail("probe_mismatch", "emplace+erase of the absent key %d did not both succeed", keyval[k]);
+      }
+    }
 
     vh::hvec<VOp> all;
     for (int t = 0; t < MAXT + 2; ++t)
